@@ -62,7 +62,9 @@ def index_file(kind, entries, plat=0, ndat=1, noise=()):
     struct.pack_into("<II", hdr, 228, 2048 + len(table), 0)           # directory segment (empty)
     # index type: the recalled layout has the u32 at 300; the library reads a byte at 296, which is hash
     # padding in the recalled layout.  Unverifiable offline, so both positions carry the value (DESIGN 5 C01).
-    struct.pack_into("<I", hdr, 296, 0 if kind == 1 else 2)
+    # Unverifiable offline, so both positions carry a value valid under the respective reading
+    # (library: byte enum 0/1 at 296; recalled: u32 0/2 at 300).
+    struct.pack_into("<I", hdr, 296, 0 if kind == 1 else 1)
     struct.pack_into("<I", hdr, 300, 0 if kind == 1 else 2)
     return sqpack_header(2, plat) + bytes(hdr) + table
 
